@@ -78,6 +78,51 @@ static int mode_ops(int cases, int nr, int nt)
     return 0;
 }
 
+// the residual operators alone on every small shape class incl. ntheta = 2 mod 4 (which the smoothers do not admit), many repeats:
+// a data race between two lines of one colour phase shows as run-to-run or thread-count dependence of the result
+static int mode_resid(int repeats)
+{
+    Rng rng(seed_from_env());
+    for (int nr : {5, 9})
+        for (int nt : {4, 6, 8, 10, 12, 14, 16}) {
+            Problem p = make_problem(rng, nr, nt);
+            Chain ch = make_chain(p, 1, true, true);
+            Level& L = *ch.levels[0];
+            const PolarGrid& g = L.grid();
+            int N = g.numberOfNodes();
+            std::vector<double> x = random_field(rng, N), f = random_field(rng, N);
+            for (int give = 1; give >= 0; give--) {
+                auto run = [&](int t) {
+                    Vector<double> o(N);
+                    if (give) { ResidualGive R(g, L.levelCache(), *p.geo, *p.coef, p.dirbc, t); R.computeResidual(o, from_rowmajor(g, f), from_rowmajor(g, x)); }
+                    else { ResidualTake R(g, L.levelCache(), *p.geo, *p.coef, p.dirbc, t); R.computeResidual(o, from_rowmajor(g, f), from_rowmajor(g, x)); }
+                    return o;
+                };
+                Vector<double> ref1 = run(1);
+                std::string hs;
+                double worst_vs_1 = 0;
+                bool repeat_ok = true, multi_same = true;
+                uint64_t h_multi = 0;
+                for (int t : {1, 2, 3, 4, 7}) {
+                    uint64_t h0 = 0;
+                    for (int rep = 0; rep < repeats; rep++) {
+                        Vector<double> o = run(t);
+                        uint64_t h = hash_vec(o);
+                        worst_vs_1 = std::max(worst_vs_1, max_rel_diff(ref1, o));
+                        if (rep == 0) h0 = h;
+                        else if (h != h0) repeat_ok = false;
+                    }
+                    if (t >= 2) { if (h_multi == 0) h_multi = h0; else if (h0 != h_multi) multi_same = false; }
+                    char b[40]; snprintf(b, sizeof b, "%d:%016llx,", t, (unsigned long long)h0); hs += b;
+                }
+                printf("PAR op=%s nr=%d nt=%d N=%d repeats_identical=%d threads_ge2_identical=%d one_thread_identical=%d worst_vs_1=%s hashes=%s\n", give ? "residual-give" : "residual-take", g.nr(), g.ntheta(), N,
+                       (int)repeat_ok, (int)multi_same, (int)(hash_vec(ref1) == h_multi), hex(worst_vs_1).c_str(), hs.c_str());
+            }
+        }
+    printf("end\n");
+    return 0;
+}
+
 static int mode_vec()
 {
     Rng rng(seed_from_env());
@@ -156,6 +201,7 @@ int main(int argc, char** argv)
     printf("seed %llu\n", (unsigned long long)seed_from_env());
     if (mode == "ops") return mode_ops(argc > 2 ? atoi(argv[2]) : 3, argc > 3 ? atoi(argv[3]) : 17, argc > 4 ? atoi(argv[4]) : 32);
     if (mode == "vec") return mode_vec();
+    if (mode == "resid") return mode_resid(argc > 2 ? atoi(argv[2]) : 20);
     if (mode == "solve") return mode_solve(argc > 2 ? atoi(argv[2]) : 3);
     fprintf(stderr, "usage: h_par ops|vec|solve\n");
     return 2;
